@@ -388,6 +388,8 @@ def check_sampling(rep, repo):
         pop = x[2][0] if x[2] else None
         p = dict(x[3]).get('p')
         pop_l = pop[2][0] if (pop is not None and pop[0] == 'call' and show(pop[1]) in ('np.array', 'np.asarray', 'list')) else pop
+        if pop_l in (C(2), CALL(S('range'), [C(2)]), CALL(A(S('np'), 'arange'), [C(2)])):
+            pop_l = ('list', (C(0), C(1)))              # np.random.choice(2, ...) draws from arange(2)
         ok = pop_l == ('list', (C(0), C(1))) and p == ('list', (BIN('Sub', C(1), tp), tp))
         alt = pop_l == ('list', (C(1), C(0))) and p == ('list', (tp, BIN('Sub', C(1), tp)))
         rep.check(ok or alt, 'C08.R5', ti.where, "indicator 1 ('tied with the next') has probability t, 0 has 1 - t (so t=0 gives no ties and t=1 ties everything)",
